@@ -2,11 +2,13 @@
    identifiers and function names and by permuting function / process / assumed-name declarations.
    To be merged into props/C14.v.  Renaming of type names and labels is proved relative to a
    type-equality relation decided by EqualType and invariant under the renaming (C08's bisimilarity).
-   The permutation of TYPE definitions is stated (VerdictInvariant.verdict_invariant_type_order_statement)
-   and NOT proved: hence the `_partial` names. *)
+   Permutation of the TYPE definitions is proved relative to a type-equality relation decided by
+   EqualType that depends on the environment through lookups only.  The closed forms of these two
+   (VerdictInvariant.verdict_invariant_types_closed_statement, ..._type_order_closed_statement) are not
+   proved here — they follow once C08 provides such a relation: hence the `_partial` names. *)
 Require Import Grits.Base Grits.STypes Grits.Forms Grits.TcDeps Grits.Tc Grits.TcTop Grits.spec.Typing
                Grits.proofs.TypingVerdict Grits.proofs.Equivariance Grits.proofs.DeclPerm
-               Grits.proofs.EquivarianceTypes Grits.proofs.VerdictInvariant.
+               Grits.proofs.EquivarianceTypes Grits.proofs.TypePerm Grits.proofs.VerdictInvariant.
 
 Theorem C14_typing_equivariant_partial : forall teq r r' rf rf' p, bijection r r' -> bijection rf rf' ->
   (ProgOK teq p <-> ProgOK teq (ren_program r rf p)).
@@ -33,6 +35,12 @@ Theorem C14_verdict_invariant_types_partial : forall teq rt rt' rl rl' p,
   (accepts p <-> accepts (rent_program rt rl p)).
 Proof. exact verdict_invariant_types. Qed.
 
+Theorem C14_verdict_invariant_type_order_partial : forall teq p D',
+  teq_decided teq -> teq_env_invariant teq -> Permutation.Permutation (p_types p) D' ->
+  (accepts p <-> accepts (with_types p D')).
+Proof. exact verdict_invariant_type_order. Qed.
+
+Print Assumptions C14_verdict_invariant_type_order_partial.
 Print Assumptions C14_typing_equivariant_types_partial.
 Print Assumptions C14_verdict_invariant_types_partial.
 Print Assumptions C14_typing_equivariant_partial.
